@@ -325,6 +325,15 @@ class ComputeBaseScore4(V4Contract):
     qualname = "CVSS4.compute_base_score"
     modifies = frozenset(["base_score"])
     max_paths = 20000
+    # case split (for parallelism only): the EQ1, EQ3 and EQ4 digits of the macrovector
+    cases = tuple({"eq1": a, "eq2": d, "eq3": b, "eq4": c} for a in (0, 1, 2) for d in (0, 1) for b in (0, 1, 2) for c in (0, 1, 2))
+
+    def setup(self, ctx):
+        args, kw = V4Contract.setup(self, ctx)
+        v = ctx.data["v4"]
+        for k in ("eq1", "eq2", "eq3", "eq4"):
+            ctx.assume(eq_z3(v.spec(k), ctx.case[k]))
+        return args, kw
 
     def check_return(self, ctx, value):
         o, v = ctx.data["self"], ctx.data["v4"]
